@@ -29,6 +29,7 @@ FUNCS = [
     dict(name='z', arity=0, ret='void', argk=[]),
     dict(name='v', arity=1, ret='void', argk=['vec']),
     dict(name='p', arity=1, ret='pair', argk=['int']),
+    dict(name='f', arity=1, ret='int', argk=['int'], constobj=True),
 ]
 
 # matcher kinds (must match sim::MK in shape.hpp)
@@ -239,7 +240,8 @@ def render(d, scoped=False):
     if scoped:
         macro = macro[len('NAMED_'):]
     vform = d.get('vform', False)   # the C++11-style macros that take the modifiers as macro arguments
-    s = '' if vform else '%s(m, %s)' % (macro, func_txt)
+    obj = 'sim::cm(m)' if f.get('constobj') else 'm'
+    s = '' if vform else '%s(%s, %s)' % (macro, obj, func_txt)
     with_inners = []
     addr = ('sim::ad(_1)' + (', sim::ad(_2)' if arity == 2 else '')) if arity else 'nullptr'
     for c, k in d['order']:
@@ -279,9 +281,9 @@ def render(d, scoped=False):
         elif c == 'Q':
             s += '.IN_SEQUENCE(%s)' % ', '.join('s%d' % i for i in range(d['nseq']))
     d['with_inners'] = with_inners
-    d['text'] = 'm.' + func_txt
+    d['text'] = obj + '.' + func_txt
     if vform:
-        s = '%s_V(m, %s%s)' % (macro, func_txt, (', ' + s) if s else '')
+        s = '%s_V(%s, %s%s)' % (macro, obj, func_txt, (', ' + s) if s else '')
     return s
 
 
@@ -354,7 +356,7 @@ def main():
                        dict(bf='AL1', mk=any_m, nwith=1, nseq=0, nse=1, rk='LRSTR_VAR', vform=False)]
         for fo in forced:
             shapes.append(gen_shape(rng, sid, fn, fo)); sid += 1
-    counts = [60, 26, 28, 12, 12, 12, 16, 14, 14, 22, 12]
+    counts = [60, 26, 28, 12, 12, 12, 16, 14, 14, 22, 12, 16]
     for fn, n in enumerate(counts):
         for _ in range(n):
             shapes.append(gen_shape(rng, sid, fn)); sid += 1
